@@ -18,7 +18,7 @@ import sys
 from prov.model import (ProvDocument, ProvException, ProvRecord, Literal, PROV_REC_CLS, ProvActivity, ProvMembership)
 from prov.identifier import QualifiedName, Identifier, Namespace
 from prov.constants import (PROV_ATTRIBUTE_QNAMES, PROV_ATTRIBUTE_LITERALS, PROV_ATTRIBUTES, PROV_ATTR_ENTITY, PROV_ATTR_COLLECTION,
-                            XSD_INT, XSD_LONG, XSD_DOUBLE, XSD_BOOLEAN, XSD_STRING, XSD_ANYURI, XSD_DATETIME, PROV_TYPE, PROV)
+                            XSD_INT, XSD_LONG, XSD_DOUBLE, XSD_BOOLEAN, XSD_STRING, XSD_ANYURI, XSD_DATETIME, PROV_TYPE, PROV, PROV_MEMBERSHIP)
 
 EX = Namespace("ex", "http://example.org/")
 T1 = datetime.datetime(2020, 1, 2, 3, 4, 5)
@@ -195,6 +195,30 @@ def scenarios(tier):
             pass
         return v + nf_violations(m, "membership")
     yield ("membership", run_membership)
+    # 5b. membership: outside the single-call compatibility path (a call that also names prov:collection) prov:entity is
+    # single-valued like every other formal attribute - a later call must not add a second member (seed C05-E)
+    def run_membership_later():
+        v = []
+        for how, build in (("membership()", lambda d: d.membership("ex:c1", "ex:e1")),
+                           ("hadMember()", lambda d: (d.collection("ex:c1").hadMember("ex:e1"), list(d.get_records(ProvMembership))[0])[1]),
+                           ("new_record", lambda d: d.new_record(PROV_MEMBERSHIP, None, [(PROV_ATTR_COLLECTION, "ex:c1"), (PROV_ATTR_ENTITY, "ex:e1")]))):
+            for form in ("qn-key-record-value", "qn-key-qn-value", "qn-key-str-value", "dict"):
+                d = doc()
+                m = build(d)
+                e2 = d.entity("ex:e2")
+                arg = {"qn-key-record-value": [(PROV_ATTR_ENTITY, e2)], "qn-key-qn-value": [(PROV_ATTR_ENTITY, e2.identifier)],
+                       "qn-key-str-value": [(PROV_ATTR_ENTITY, "ex:e2")], "dict": {PROV_ATTR_ENTITY: e2}}[form]
+                try:
+                    m.add_attributes([(PROV_ATTR_ENTITY, "ex:e1")])      # the same value again: a no-op
+                    m.add_attributes(arg)
+                    v.append(("formal-single", "%s then add_attributes(%s): a second, different prov:entity was accepted in a later call: %r"
+                              % (how, form, sorted(map(str, m.get_attribute(PROV_ATTR_ENTITY))))))
+                except ProvException:
+                    pass
+                if len(m.get_attribute(PROV_ATTR_ENTITY)) != 1:
+                    v.append(("formal-single", "%s/%s: prov:entity holds %d values" % (how, form, len(m.get_attribute(PROV_ATTR_ENTITY)))))
+        return v
+    yield ("membership-later-call", run_membership_later)
     # 6. asserted types and element convenience methods
     def run_conv():
         d = doc()
